@@ -54,7 +54,10 @@ func stressLines(r *RNG, n int) []string {
 		case 5:
 			out = append(out, ":srv CAP me NEW :away-notify extended-join", ":srv CAP me DEL :away-notify")
 		case 6:
-			out = append(out, ":srv CAP me ACK :multi-prefix account-tag")
+			out = append(out, ":srv CAP me ACK :multi-prefix account-tag message-tags")
+			if r.Bool() {
+				out = append(out, ":srv CAP me DEL :message-tags")
+			}
 		case 7:
 			out = append(out, fmt.Sprintf(":%s!u@h PRIVMSG %s :hello %d", nk, ch, i))
 		case 8:
@@ -222,7 +225,9 @@ func stressWorkerMain(args []string) {
 		if atomic.LoadInt32(&sendersOff) == 1 {
 			return
 		}
-		switch i % 6 {
+		switch i % 7 {
+		case 6: // an event carrying message tags: sendLoop consults the enabled capabilities for it
+			_ = c.Cmd.SendRaw("@+example/id=1 PRIVMSG #a :tagged")
 		case 0:
 			c.Cmd.Message("#a", "hello there")
 		case 1:
@@ -427,7 +432,7 @@ func runC12(c *Ctx) {
 	c.R.Rule = "race-detector-instrumented stress (worker = the harness built with -race): an event stream of joins, parts, nick/mode changes, NAMES, CAP NEW/DEL/ACK, KICK/QUIT/TOPIC/WHOX/AWAY and own-nick changes against concurrent readers of every getter (and of the snapshots' methods), senders, registrars (Add/AddBg/AddTmp/Remove/Clear/Count/Len, CTCP.Set/Clear), handlers that call back into the client, and a closer (at the end, mid-stream, and across three reconnects), under GOMAXPROCS 1/2/16; a detector report or a watchdog timeout is a violation; non-trivial = every scenario"
 	n := 0
 	// the deterministic callback scenarios first (they are quick and name the blocked call), then the stress
-	for _, ev := range []string{"CTCP", "HANDLERS", girc.STS_ERR_FALLBACK, girc.INITIALIZED, girc.DISCONNECTED} {
+	for _, ev := range []string{"CTCP", "HANDLERS", "RECONNECTPOLL", girc.STS_ERR_FALLBACK, girc.INITIALIZED, girc.DISCONNECTED} {
 		c.run("callback12", map[string]string{"event": ev})
 		n++
 	}
@@ -499,6 +504,68 @@ func init() {
 				c.R.Mismatch("callback12.not_emitted", hin, "the CTCP handler was not invoked", "")
 			}
 			c.R.Count("callback/CTCP", true, "callback")
+			return
+		}
+		if in["event"] == "RECONNECTPOLL" {
+			// goroutines polling every read-only query while the application keeps (re)connecting against a dialer that
+			// refuses: connection setup takes Client.mu and resets the state under it, so no query may take these two
+			// locks in the opposite order
+			cl3 := girc.New(girc.Config{Server: "irc.example.org", Port: 6667, Nick: "me", User: "me", Name: "me"})
+			var stop int32
+			var progress [7]int64
+			var wg sync.WaitGroup
+			refuse := &scriptDialer{}
+			wg.Add(1)
+			go func() {
+				defer wg.Done()
+				for atomic.LoadInt32(&stop) == 0 {
+					_ = cl3.DialerConnect(refuse)
+					atomic.AddInt64(&progress[0], 1)
+				}
+			}()
+			for p := 1; p <= 6; p++ {
+				wg.Add(1)
+				go func(p int) {
+					defer wg.Done()
+					for atomic.LoadInt32(&stop) == 0 {
+						_ = cl3.HasCapability("multi-prefix")
+						_ = cl3.IsConnected()
+						_ = cl3.GetNick()
+						_ = cl3.GetID()
+						_ = cl3.Server()
+						_ = cl3.MaxEventLength()
+						_ = cl3.ChannelList()
+						_ = cl3.IsInChannel("#a")
+						_ = cl3.Latency()
+						_, _ = cl3.GetServerOption("NETWORK")
+						_ = cl3.NetworkName()
+						atomic.AddInt64(&progress[p], 1)
+					}
+				}(p)
+			}
+			time.Sleep(1200 * time.Millisecond)
+			var before [7]int64
+			for i := range progress {
+				before[i] = atomic.LoadInt64(&progress[i])
+			}
+			time.Sleep(400 * time.Millisecond)
+			stuck := []int{}
+			for i := range progress {
+				if atomic.LoadInt64(&progress[i]) == before[i] {
+					stuck = append(stuck, i)
+				}
+			}
+			atomic.StoreInt32(&stop, 1)
+			done := make(chan struct{})
+			go func() { wg.Wait(); close(done) }()
+			select {
+			case <-done:
+			case <-time.After(5 * time.Second):
+				c.R.Violation("callback12.deadlock", hin, fmt.Sprintf("goroutines %v (0 = the reconnect loop, 1-6 = pollers of HasCapability/IsConnected/GetNick/…) made no progress and never returned", stuck), "",
+					"any number of goroutines may call the concurrent-safe queries while the client (re)connects; none blocks forever")
+				return
+			}
+			c.R.Count("callback/RECONNECTPOLL", true, "callback")
 			return
 		}
 		if in["event"] == "HANDLERS" {
